@@ -26,7 +26,7 @@ type c11Case struct {
 func init() {
 	engine.Register(&engine.Check{
 		ID: "C11", Level: "exploration",
-		Rule: "every closed ring of 3 and 4 vertices on the 4x4 grid and of 5 vertices on the 3x3 grid (thorough: also 5 vertices on the 4x4 grid) - simple, self-intersecting, degenerate, with repeated vertices and horizontal edges, every direction and start vertex - with vertices on even coordinates x every query point of the doubled grid (edge midpoints, points level with vertices); translated copies at 2^26 and layouts XYZ/XYZM with NaN extras; LocatePointInRing/IsPointInRing vs the exact even-odd rule evaluated with a vertical ray; IsOnLine/PointIntersectsLine for every segment and 3-vertex polyline x every point of the 5x5 grid plus +-1 ulp perturbations of exactly-on-segment configurations. distinct_nontrivial = distinct (ring, point) pairs with a ring of non-zero area or a boundary hit",
+		Rule: "every closed ring of 3 and 4 vertices on the 4x4 grid and of 5 vertices on the 3x3 grid (thorough: also 5 vertices on the 4x4 grid) - simple, self-intersecting, degenerate, with repeated vertices and horizontal edges, every direction and start vertex - with vertices on even coordinates x every query point of the doubled grid (edge midpoints, points level with vertices); translated copies at 2^26 and layouts XYZ/XYZM with NaN extras; a split-ratio sweep (triangles with a slanted edge through the origin divided a:b for all a,b <= 24 in 10 directions, every start vertex and direction, queried at the origin and its neighbours); LocatePointInRing/IsPointInRing vs the exact even-odd rule evaluated with a vertical ray; IsOnLine/PointIntersectsLine for every segment and 3-vertex polyline x every point of the 5x5 grid plus +-1 ulp perturbations of exactly-on-segment configurations. distinct_nontrivial = distinct (ring, point) pairs with a ring of non-zero area or a boundary hit",
 		Run:    c11Run,
 		Replay: func(c *engine.Ctx, kind string, raw json.RawMessage) { c11Exec(c, decodeCase[c11Case](raw)) },
 		Assumptions: []string{"ordinates on an integer grid up to 2^26 (differences exact) for rings; moderate floats for point-on-line"},
@@ -182,6 +182,39 @@ func c11Run(c *engine.Ctx) {
 					}
 					c11Exec(c, c11Case{Mode: "ring", Ring: tr, P: []ref.F{ref.F(float64(x) + off), ref.F(float64(y) + off)}, Layout: l})
 				}
+			}
+		}
+	})
+	// split-ratio sweep: a point strictly inside a slanted edge, dividing it a:b for all a,b <= 24
+	// in 10 directions (the exact-sign determinant reduces such configurations step by step)
+	dirs := [][2]float64{{1, 1}, {1, 2}, {2, 1}, {1, -1}, {3, 1}, {1, 3}, {2, -3}, {5, 2}, {-3, 7}, {7, -4}}
+	c.Parallel(len(dirs)*24, func(i int) {
+		d := dirs[i/24]
+		a := float64(i%24 + 1)
+		for b := 1.0; b <= 24; b++ {
+			A := [2]float64{-a * d[0], -a * d[1]}
+			B := [2]float64{b * d[0], b * d[1]}
+			C := [2]float64{B[0] - d[1]*3 + 1, A[1] + d[0]*3 - 2} // off the line
+			tri := [][2]float64{A, B, C}
+			for start := 0; start < 3; start++ {
+				for _, rev := range []bool{false, true} {
+					var ring []ref.F
+					for k := 0; k <= 3; k++ {
+						j := (start + k) % 3
+						if rev {
+							j = ((start-k)%3 + 3) % 3
+						}
+						ring = append(ring, ref.F(tri[j][0]), ref.F(tri[j][1]))
+					}
+					for _, q := range [][2]float64{{0, 0}, {1, 0}, {0, 1}, {-1, 0}, {0, -1}, {d[0], d[1]}, {-d[0], -d[1]}} {
+						c.Count("split_ratio_queries", 1)
+						c11Exec(c, c11Case{Mode: "ring", Ring: ring, P: []ref.F{ref.F(q[0]), ref.F(q[1])}, Layout: geom.XY})
+					}
+				}
+			}
+			for _, q := range [][2]float64{{0, 0}, {d[0], d[1]}, {1, 0}} {
+				c11Exec(c, c11Case{Mode: "line", Ring: []ref.F{ref.F(A[0]), ref.F(A[1]), ref.F(B[0]), ref.F(B[1])}, P: []ref.F{ref.F(q[0]), ref.F(q[1])}, Layout: geom.XY})
+				c11Exec(c, c11Case{Mode: "line", Ring: []ref.F{ref.F(B[0]), ref.F(B[1]), ref.F(A[0]), ref.F(A[1])}, P: []ref.F{ref.F(q[0]), ref.F(q[1])}, Layout: geom.XY})
 			}
 		}
 	})
